@@ -54,17 +54,31 @@ let words = [| "alpha"; "beta"; "gamma"; "delta"; "eps"; "zeta"; "eta"; "theta";
 let text r = " " ^ pick r words ^ (if rbool r then "." else ":") ^ " "
 
 (* the model's prediction for a workload, and its JSON *)
-let finish r ~id ~tier ~debug ~has_rel (w : M.sc_world) (threads : M.sc_call list list) =
+(* a later phase: (rewrites, the world after them, the goroutines of the phase); a rewrite names loader, search path,
+   key and the new source; its modification time is 10 * (phase number) *)
+type phase = { rewrites : (int * int * string * M.sc_src) list; world : M.sc_world; pthreads : M.sc_call list list }
+
+let finish ?(phases = []) r ~id ~tier ~debug ~has_rel (w : M.sc_world) (threads : M.sc_call list list) =
   let nthreads = List.length threads in
   let loaders = w.M.w_loaders in
   let fuel = nat_of_int 12 in
   let st0 = M.sc_init fuel w threads in
-  let order = List.init nthreads nat_of_int in
-  let rec serial k =
-    let st = M.sc_run w (M.sc_serial_schedule order (nat_of_int k)) st0 in
-    if M.sc_complete st then st else if k > 200000 then (prerr_endline "c02: serial run does not complete"; exit 3) else serial (k * 4) in
-  let st = serial 400 in
-  let results = List.map (function Some l -> l | None -> (prerr_endline "c02: incomplete thread"; exit 3)) (M.sc_results st) in
+  let run_serial w st0 nth =
+    let order = List.init nth nat_of_int in
+    let rec serial k =
+      let st = M.sc_run w (M.sc_serial_schedule order (nat_of_int k)) st0 in
+      if M.sc_complete st then st else if k > 200000 then (prerr_endline "c02: serial run does not complete"; exit 3) else serial (k * 4) in
+    let st = serial 400 in
+    (st, List.map (function Some l -> l | None -> (prerr_endline "c02: incomplete thread"; exit 3)) (M.sc_results st)) in
+  let (st, results) = run_serial w st0 nthreads in
+  (* later phases: each starts from the engine as the serial run of the phase before left it (by C02_phase_end_ok
+     every schedule leaves a good start, and by C02_phase_equals_serial the results do not depend on which) *)
+  let phase_results =
+    let cur = ref st in
+    List.map (fun ph ->
+      let s0 = M.sc_phase_state fuel ph.world (!cur).M.st_sh ph.pthreads in
+      let (st', rs) = run_serial ph.world s0 (List.length ph.pthreads) in
+      cur := st'; rs) phases in
   let sched_dep = ref false in
   (* a random interleaving must agree (executable content of C02_any_schedule_equals_serial) *)
   if id mod 4 = 0 then begin
@@ -92,7 +106,7 @@ let finish r ~id ~tier ~debug ~has_rel (w : M.sc_world) (threads : M.sc_call lis
       | M.ScCLoad n -> [ "op", JS "load"; "n", hx (sb n) ]
       | M.ScCParse (s, vs) -> [ "op", JS "parse"; "s", hx (pr_src s); "vars", jvars vs ]
       | M.ScCRegister (n, s) -> [ "op", JS "register"; "n", hx (sb n); "s", hx (pr_src s) ]) @ jexp e) in
-  let ncalls = List.fold_left (fun a l -> a + List.length l) 0 threads in
+  let ncalls = List.fold_left (fun a l -> a + List.length l) 0 (threads @ List.concat_map (fun ph -> ph.pthreads) phases) in
   Ob [ "k", JS "wl"; "id", JI id;
        "cache", JB w.M.w_cache; "auto", JB w.M.w_auto; "debug", JB debug; "chain", JB w.M.w_chain;
        "loaders", JL (List.map (fun (l : M.sc_loader) -> Ob [ "fs", JB l.M.ld_fs;
@@ -100,8 +114,22 @@ let finish r ~id ~tier ~debug ~has_rel (w : M.sc_world) (threads : M.sc_call lis
        "reg", JL (List.map (fun (n, s) -> Ob [ "n", hx (sb n); "s", hx (pr_src s) ]) w.M.w_reg);
        "regt", JL (List.map (fun (n, s) -> Ob [ "n", hx (sb n); "s", hx (pr_src s) ]) w.M.w_regt);
        "threads", JL (List.map2 (fun cs es -> JL (List.map2 jcall cs es)) threads results);
+       "phases", JL (List.mapi (fun k (ph, rs) ->
+            Ob [ "rewrites", JL (List.map (fun (l, d, n, src) -> Ob [ "l", JI l; "d", JI d; "n", hx n; "s", hx (pr_src src) ]) ph.rewrites);
+                 "mtime", JI (10 * (k + 1));
+                 "threads", JL (List.map2 (fun cs es -> JL (List.map2 jcall cs es)) ph.pthreads rs) ]) (List.combine phases phase_results));
        "ncalls", JI ncalls; "nontrivial", JB (has_rel && nthreads >= 2); "model_schedule_dependent", JB !sched_dep;
        "reps", JI (if tier = "thorough" then 6 else 3) ]
+
+(* the world after rewriting files: (loader, search path, key, new source) with modification time mt *)
+let rewrite_world (w : M.sc_world) (rws : (int * int * string * M.sc_src) list) (mt : int) : M.sc_world =
+  let z = if mt = 0 then M.Z0 else M.Zpos (pos_of_int mt) in
+  { w with M.w_loaders = List.mapi (fun li (l : M.sc_loader) ->
+      { l with M.ld_dirs = List.mapi (fun di dir ->
+          List.map (fun (k, f) ->
+            match List.find_opt (fun (l', d', n', _) -> l' = li && d' = di && n' = sb k) rws with
+            | Some (_, _, _, src) -> (k, { M.fl_src = src; fl_mtime = z })
+            | None -> (k, f)) dir) l.M.ld_dirs }) w.M.w_loaders }
 
 let gen_workload r ~id ~tier =
   let ctr = ref 0 in
@@ -182,9 +210,11 @@ let gen_workload r ~id ~tier =
   let tables = Array.init nl (fun i -> Array.make ndirs.(i) []) in
   let decoy = M.ScSrcTpl { M.tp_extends = None; tp_items = [ M.ScItFlat (M.ScFText (bs "DECOY")) ]; tp_macros = [] } in
   let file s = { M.fl_src = s; fl_mtime = M.Z0 } in
+  let homes = Hashtbl.create 16 in
   List.iter (fun d ->
     let li = rint r nl in
     let di = rint r ndirs.(li) in
+    Hashtbl.replace homes d.key (li, di);
     tables.(li).(di) <- (bs d.key, file d.src) :: tables.(li).(di);
     (* positions after the home *)
     for lj = li to nl - 1 do
@@ -239,7 +269,13 @@ let gen_workload r ~id ~tier =
       (bs "v", M.ScVObj (nat_of_int 2, List.map (fun f -> bs (Printf.sprintf "%s%d" (String.lowercase_ascii f) (rint r 3))) type_fields.(2))) ] in
   let hot = Array.init 3 (fun _ -> pick r wnames) in     (* names many goroutines go for at once *)
   let rname () = if rint r 3 = 0 then pick r hot else if rint r 12 = 0 then pick r callnames else usename (pick r wnames) in
-  let gen_call t c =
+  (* leaves whose home is a FileSystemLoader and that are never registered: their files may be rewritten between phases *)
+  let rewritable = List.filter_map (fun d ->
+      match Hashtbl.find_opt homes d.key with
+      | Some (li, di) when d.kind = "leaf" && lfs.(li) && not (List.exists (fun (n, _) -> sb n = d.key) (w.M.w_reg @ w.M.w_regt)) -> Some (d, li, di)
+      | _ -> None) defs_l in
+  let will_rewrite = rewritable <> [] && rint r 3 = 0 in
+  let gen_call ?(w = w) t c =
     match rint r 20 with
     | 0 | 1 | 2 | 3 | 4 | 5 | 6 -> M.ScCRender (false, bs (rname ()), vars t c)
     | 7 | 8 | 9 | 10 | 11 -> M.ScCRender (true, bs (rname ()), vars t c)
@@ -249,15 +285,34 @@ let gen_workload r ~id ~tier =
         M.ScCParse (s, vars t c)
     | _ ->
         let n = bs (pick r callnames) in
+        (* a registration pins its source for good: never for a name whose file is going to be rewritten *)
+        if will_rewrite && List.exists (fun (d, _, _) -> d.key = sb n) rewritable then M.ScCLoad n else
         (match M.sc_src_of w n with
          | Some s -> M.ScCRegister (n, s)
          | None -> M.ScCLoad n) in
   let threads = List.init nthreads (fun t -> List.init (5 + rint r 26) (fun c -> gen_call t c)) in
+  let phases =
+    if not will_rewrite then [] else begin
+      let cur_w = ref w in
+      List.init (1 + rint r 2) (fun k ->
+        let k = k + 1 in
+        let chosen = List.filter (fun _ -> rbool r) rewritable in
+        let chosen = if chosen = [] then [ List.hd rewritable ] else chosen in
+        let rws = List.map (fun (d, li, di) ->
+            (li, di, d.key, mk [ M.ScItFlat (M.ScFText (bs (Printf.sprintf " v%d-of-%s " k d.key))); M.ScItFlat (flat_leaf ()) ])) chosen in
+        let w' = rewrite_world !cur_w rws (10 * k) in
+        cur_w := w';
+        let pthreads = List.init (6 + rint r 11) (fun t -> List.init (3 + rint r 8) (fun c ->
+            if rint r 4 = 0 then (let (d, _, _) = List.nth chosen (rint r (List.length chosen)) in
+                                  if rbool r then M.ScCRender (rbool r, bs (usename d.key), vars t c) else M.ScCLoad (bs (usename d.key)))
+            else gen_call ~w:w' (100 * k + t) c)) in
+        { rewrites = rws; world = w'; pthreads })
+    end in
   let has_rel = List.exists (fun d -> match d.src with
       | M.ScSrcTpl t -> (match t.M.tp_extends with Some p -> String.length (sb p) > 0 && (sb p).[0] = '.' | None -> false)
                         || List.exists (function M.ScItInclude n | M.ScItMacro (_, n, _, _) -> (sb n).[0] = '.' | _ -> false) t.M.tp_items
       | _ -> false) defs_l in
-  finish r ~id ~tier ~debug ~has_rel w threads
+  finish ~phases r ~id ~tier ~debug ~has_rel w threads
 
 (* ---- fixed workloads: one per repaired race, so that none can come back unnoticed ---- *)
 let tpl items = M.ScSrcTpl { M.tp_extends = None; tp_items = items; tp_macros = [] }
@@ -292,6 +347,32 @@ let fixed_nameless r ~id ~tier ~fs =
   let threads = List.init 16 (fun t -> List.init 24 (fun c ->
       M.ScCRender (c mod 2 = 0, bs (List.nth dirs ((t + c) mod 4) ^ "/main.twig"), mkvar t c))) in
   finish r ~id ~tier ~debug:false ~has_rel:true w threads
+
+(* files rewritten between phases: every template is cached in a first phase; then, while no call is running, the
+   files are rewritten with a later modification time; every call of the next phase starts after the rewrite and
+   must return the new text (auto-reload with a timestamp-aware loader, or caching off), whatever the other
+   goroutines are loading at that moment. mode: 0 = cache on + auto-reload, 1 = cache off *)
+let fixed_reload r ~id ~tier ~mode =
+  let names = List.init 6 (fun i -> Printf.sprintf "pg/t%d.twig" i) in
+  let src v n = tpl [ txt (Printf.sprintf "<%s v%d " n v); M.ScItInclude (bs "./part.twig"); M.ScItFlat (M.ScFVar (bs "mk")); txt ">" ] in
+  let part v = tpl [ txt (Printf.sprintf "part-v%d" v) ] in
+  let files v = (bs "pg/part.twig", { M.fl_src = part v; fl_mtime = M.Z0 }) :: List.map (fun n -> (bs n, { M.fl_src = src v n; fl_mtime = M.Z0 })) names in
+  let w = world ~cache:(mode = 0) ~auto:(mode = 0) [ { M.ld_fs = true; ld_dirs = [ files 0 ] } ] in
+  let threads0 = List.init 6 (fun t -> List.init 6 (fun c -> M.ScCRender (c mod 2 = 0, bs (List.nth names ((t + c) mod 6)), mkvar t c))) in
+  let mkphase k prev_w =
+    (* every second phase leaves the part alone, so that a reloaded template meets a cached include and the reverse *)
+    let rws = List.map (fun n -> (0, 0, n, src k n)) (List.filteri (fun i _ -> (i + k) mod 3 <> 0) names)
+              @ (if k mod 2 = 1 then [ (0, 0, "pg/part.twig", part k) ] else []) in
+    let w' = rewrite_world prev_w rws (10 * k) in
+    let hot = List.nth names (k mod 6) and hot2 = List.nth names ((k + 1) mod 6) in
+    let pthreads = List.init 16 (fun t -> List.init 6 (fun c ->
+        let n = if c < 2 then (if t mod 2 = 0 then hot else hot2) else List.nth names ((t + c) mod 6) in
+        if c = 3 then M.ScCLoad (bs n) else M.ScCRender ((t + c) mod 2 = 0, bs n, mkvar t c))) in
+    ({ rewrites = rws; world = w'; pthreads }, w') in
+  let (p1, w1) = mkphase 1 w in
+  let (p2, w2) = mkphase 2 w1 in
+  let (p3, _) = mkphase 3 w2 in
+  finish ~phases:[ p1; p2; p3 ] r ~id ~tier ~debug:false ~has_rel:true w threads0
 
 (* cold FileSystemLoader with two search paths, every goroutine asking for other names first (4b22ec0) *)
 let fixed_memo r ~id ~tier ~auto =
@@ -372,7 +453,8 @@ let run ~seed ~tier oc =
                 (fun id -> fixed_memo r ~id ~tier ~auto:false); (fun id -> fixed_memo r ~id ~tier ~auto:true);
                 (fun id -> fixed_parse r ~id ~tier); (fun id -> fixed_intern r ~id ~tier);
                 (fun id -> fixed_rich r ~id ~tier ~mode:0); (fun id -> fixed_rich r ~id ~tier ~mode:(1 + rint r 3));
-                (fun id -> fixed_nameless r ~id ~tier ~fs:true); (fun id -> fixed_nameless r ~id ~tier ~fs:false) ] in
+                (fun id -> fixed_nameless r ~id ~tier ~fs:true); (fun id -> fixed_nameless r ~id ~tier ~fs:false);
+                (fun id -> fixed_reload r ~id ~tier ~mode:0); (fun id -> fixed_reload r ~id ~tier ~mode:1) ] in
   List.iteri (fun i f -> emit oc (f (i + 1))) fixed;
   let n = if tier = "thorough" then 240 else 24 in
   let nf = List.length fixed in
